@@ -238,7 +238,7 @@ def matrix_cases(tier, seed, stores=("local",)):
                 d.update({"position": pos, "import_form": form, "layout": layout})
                 emit("import:%s/%s@%s" % (form, layout, pos), p0, p1, d)
     # D7: higher-order reference, lambda, nested def, class/method
-    for variant in ("ref", "ref_kw", "lambda_call", "nested_def", "nested_def_var", "nested_def_helper", "nested_def_helper:default", "nested_def_helper:lambda_default", "nested_def_var:default", "nested_def_var:lambda_default", "nested_def_var:shadow", "method_const", "method_var", "method_callee", "method_const:prop", "method_var:prop", "method_callee:prop", "cls_attr", "cls_attr_other_module", "indent"):
+    for variant in ("ref", "ref_kw", "lambda_call", "nested_def", "nested_def_var", "nested_def_helper", "nested_def_helper:default", "nested_def_helper:lambda_default", "nested_def_var:default", "nested_def_var:lambda_default", "nested_def_var:shadow", "method_const", "method_var", "method_callee", "method_const:prop", "method_var:prop", "method_callee:prop", "cls_attr", "cls_attr_other_module", "cls_attr_is_module_variable", "cls_attr_is_module_variable:method", "indent"):
         for pos in ("A", "main", "C"):
             p0 = base_program("pm%d" % k)
             k += 1
@@ -286,6 +286,17 @@ def matrix_cases(tier, seed, stores=("local",)):
             elif variant == "indent":
                 f["stmts"].append(gen.s_block(90))
                 p1, d = gen.e_toggle_indent(p0, ids[pos], len(f["stmts"]) - 1)
+            elif variant.startswith("cls_attr_is_module_variable"):
+                # a class-level attribute whose value is a module variable (LEVEL = V): read through the class or by a method
+                vid = gen.add_var(p0, mod, "V_LEVEL", "int")
+                p0["order"][mod].remove(("var", vid))
+                p0["order"][mod].insert(0, ("var", vid))
+                cid = gen.add_cls(p0, mod, "Cfg", const=80)
+                p0["classes"][cid]["attr_var"] = vid
+                p0["order"][mod].remove(("cls", cid))
+                p0["order"][mod].insert(1, ("cls", cid))
+                f["stmts"].append(gen.s_method(cid, "4") if variant.endswith(":method") else gen.s_clsattr(cid))
+                p1, d = gen.e_set_var(p0, vid)
             elif variant in ("cls_attr", "cls_attr_other_module"):
                 # a class-level constant read through the class name, without creating an instance
                 cmod = mod if variant == "cls_attr" else p0["_ids"]["leaf"]
